@@ -1,5 +1,6 @@
 (* Properties/C12.v — C12: both stores implement one abstract session map. *)
-From AS Require Import Base.Str Oidc.Types Store.Spec Store.Memory Store.Redis Proofs.PStore.
+From AS Require Import Base.Str Oidc.Types Store.Spec Store.Memory Store.Redis Proofs.PStore Proofs.PRedis.
+From Coq Require Import Lia.
 
 (* the abstract map with liveness is, while no session dies, literally the plain map of the property *)
 Theorem C12_spec_is_plain_map :
@@ -48,7 +49,20 @@ Example C12_refuted_unguarded :
   snd (mrun 0 0 [] [(1, OSetTok "s" t); (2, OGetTok "s")])%Z = [RUnit; RTok (Some t)] /\
   snd (rrun 0 0 (fun _ => false) [] [(1, OSetTok "s" t); (2, OGetTok "s")])%Z = [ROk RUnit; ROk (RTok None)].
 Proof. vm_compute. split; reflexivity. Qed.
-(* and the known divergence on well-formed sequences: clearing the login state of a session that does not exist *)
-Example C12_redis_clear_missing_errs :
-  snd (rrun 0 0 (fun _ => true) [] [(1, OClearAuth "s")])%Z = [RErr] /\ snd (mrun 0 0 [] [(1, OClearAuth "s")])%Z = [RUnit].
-Proof. vm_compute. split; reflexivity. Qed.
+(* the Redis store refines the abstract map under its own liveness rule: for every operation sequence with
+   non-decreasing positive clock readings and the values the handler stores (an ID token that parses, login states
+   with all four members), every answer of the command-level model of the Redis store equals the abstract map's.
+   (Before fix 33d4a84 this theorem carried one exception - clearing the login state of a missing session reported
+   an error - which was the finding C12/redis-clear-missing.) *)
+Theorem C12_redis_refines_spec :
+  forall abs idle parses h t0, clock_ok parses t0 h ->
+    snd (rrun abs idle parses [] h) = map ROk (snd (arun (alive_redis abs idle) aempty h)).
+Proof. intros. eapply redis_refines_spec_from_empty; eassumption. Qed.
+Print Assumptions C12_redis_refines_spec.
+
+Example C12_redis_example :
+  let t := {| t_id := "j"; t_access := "a"; t_refresh := ""; t_expiry := 0 |} in
+  let h := [(1 * second, OSetTok "s" t); (2 * second, OGetTok "s"); (3 * second, OClearAuth "s"); (4 * second, OClearAuth "zz"); (20 * second, OGetTok "s")]%Z in
+  clock_ok (fun _ => true) 0 h /\
+  snd (rrun (10 * second) 0 (fun _ => true) [] h) = [ROk RUnit; ROk (RTok (Some t)); ROk RUnit; ROk RUnit; ROk (RTok None)].
+Proof. split; [cbn; repeat split; try lia; discriminate | vm_compute; reflexivity]. Qed.
